@@ -166,7 +166,11 @@ def shard(ctx):
         else:
             files, roots = {"main.asm": src}, ["main.asm"]
         views = draw_views(rng)
-        job = lib.asm_job(lib.files_json(files), roots=roots, want=["symbols", "spans", "banks"], formats=views)
+        disk = dict(files)
+        for fname, data in (prog.get("extra_files") or {}).items():
+            disk[fname] = data
+            disk["inc/" + fname] = data
+        job = lib.asm_job(lib.files_json(disk), roots=roots, want=["symbols", "spans", "banks"], formats=views)
         rec = worker.run(job)
         ctx.evaluated()
         if lib.abnormal(rec):
